@@ -1,7 +1,7 @@
 (* C04 — object overlap and containment tests agree with exact solid geometry: property theorems.
    Statements only; each is closed by [exact] of a lemma of coq/C04/. *)
 From Coq Require Import QArith Qabs List Bool.
-From Scenic Require Import C17.Vec C04.Polytope C04.Overlap C04.Nested.
+From Scenic Require Import C17.Vec C04.Polytope C04.Overlap C04.Nested C04.Planar.
 Import ListNotations.
 Open Scope Q_scope.
 
@@ -209,3 +209,42 @@ Example C04_certificates_example :
   separates (V3 1 0 0) 2 (1#2) [V3 0 0 0; V3 1 1 0] [V3 3 0 0; V3 4 1 1] = true /\
   common_point 0 [1#2; 1#2] [1#2; 1#2] [V3 0 0 0; V3 2 2 0] [V3 2 0 0; V3 0 2 0] = true.
 Proof. split; vm_compute; reflexivity. Qed.
+
+(* ================================================================== round 3 *)
+(* ---- the z-interval test of the planar-box fast path as a function of the numbers: exact for upright prisms *)
+Theorem C04_z_apart_iff_intervals_disjoint : forall za ha zb hb, 0 <= ha -> 0 <= hb ->
+  (z_apart_num za ha zb hb = false <-> ivals_meet za ha zb hb).
+Proof. exact z_apart_false_iff. Qed.
+Print Assumptions C04_z_apart_iff_intervals_disjoint.
+
+Theorem C04_planar_fast_path_correct : forall (FA FB : Q -> Q -> Prop) za ha zb hb polys, 0 <= ha -> 0 <= hb ->
+  (polys = true <-> exists x y, FA x y /\ FB x y) ->
+  (planar_fast za ha zb hb polys = true <-> prisms_meet FA FB za ha zb hb).
+Proof. exact planar_fast_correct. Qed.
+Print Assumptions C04_planar_fast_path_correct.
+
+Theorem C04_z_apart_symmetric : forall za ha zb hb, z_apart_num za ha zb hb = z_apart_num zb hb za ha.
+Proof. exact z_apart_symmetric. Qed.
+Print Assumptions C04_z_apart_symmetric.
+
+(* a quarter of the summed heights (seeded/C02-4): partially stacked boxes are declared apart *)
+Theorem C04_z_apart_quarter_refuted : exists za ha zb hb, 0 <= ha /\ 0 <= hb /\
+  ivals_meet za ha zb hb /\ z_apart_num za ha zb hb = false /\ z_apart_quarter za ha zb hb = true.
+Proof. exact z_apart_quarter_refuted. Qed.
+Print Assumptions C04_z_apart_quarter_refuted.
+
+(* ---- approxBoundFootprint: over EVERY history of requests on one region, the slab handed out covers the request *)
+Theorem C04_footprint_cache_history_covers : forall reqs st, cache_ok st -> Forall (fun r => 0 <= snd r) reqs ->
+  Forall2 (fun s r => slab_covers s (fst r) (snd r)) (run_requests approx st reqs) reqs.
+Proof. exact approx_history_covers. Qed.
+Print Assumptions C04_footprint_cache_history_covers.
+
+(* recording the padded height while building the slab with the requested one (seeded/C04-3) breaks at the second request *)
+Theorem C04_footprint_cache_seeded_refuted : exists reqs, Forall (fun r => 0 <= snd r) reqs /\
+  ~ Forall2 (fun s r => slab_covers s (fst r) (snd r)) (run_requests approx_seeded None reqs) reqs.
+Proof. exact approx_seeded_refuted. Qed.
+Print Assumptions C04_footprint_cache_seeded_refuted.
+
+Example C04_footprint_cache_example :
+  run_requests approx None [(0, 3); (30, 3); (-20, 2)] = [Slab 0 (pad 0 3); Slab 0 (pad 0 3); Slab 0 (pad 0 3)].
+Proof. exact approx_reuses_cache. Qed.
